@@ -106,7 +106,7 @@ pub fn generate(rng: &mut Rng, n: usize, tier: &str) -> Vec<Value> {
                 if depth == "gray" && (*p, *q) != (0, 0) {
                     continue;
                 }
-                if depth == "256" && !thorough && x % 2 == 1 {
+                if depth == "256" && !thorough && x % 4 != 1 {
                     continue;
                 }
                 push(depth, "sweep", x, *p, *q, &mut v);
@@ -114,7 +114,7 @@ pub fn generate(rng: &mut Rng, n: usize, tier: &str) -> Vec<Value> {
                 push(depth, "sweep", *p, *q, x, &mut v);
             }
             // the grey diagonal and its neighbourhood (cube-versus-grey decision, grey thresholds)
-            if depth == "256" && !thorough && x % 2 == 1 {
+            if depth == "256" && !thorough && x % 4 != 2 {
                 continue;
             }
             push(depth, "diag", x, x, x, &mut v);
@@ -128,6 +128,20 @@ pub fn generate(rng: &mut Rng, n: usize, tier: &str) -> Vec<Value> {
     // (b) true colour: every channel value in every position
     for x in 0..256u64 {
         push("true", "sweep", x, 255 - x, (x * 7) & 255, &mut v);
+    }
+    // (b2) channel values aimed at the integer constants the encoder source contains right now (and their
+    //      neighbours): a threshold a change introduces is reached without knowing it in advance
+    let bounds: Vec<u64> = source_boundaries(&["src/encoder.rs"], 255);
+    for (i, x) in bounds.iter().enumerate() {
+        let y = bounds[(i * 7 + 3) % bounds.len()];
+        let z = bounds[(i * 13 + 5) % bounds.len()];
+        for depth in ["256", "gray", "true"] {
+            if depth == "256" && !thorough && i % 3 != 0 {
+                continue;
+            }
+            push(depth, "source-bound", *x, y, z, &mut v);
+            push(depth, "source-bound", z, *x, *x, &mut v);
+        }
     }
     // (c) random colours: mostly the 256-colour path
     let fixed_n = v.len();
